@@ -98,10 +98,20 @@ def hull : List Range → Option Range
 
 /-- `get_filtered` (repaired, fixes F27 and F37): skip (none), report as certainly matching (some true), or hand to full
     evaluation; an enclosing range that only touches the requested range, or shares an end point with it, is always handed
-    to full evaluation -/
-def prefilter (simple : Bool) (fs fe : Int) (h : Range) : Option Bool :=
+    to full evaluation.  `tmin` / `tmax` are the smallest and largest time stamps (`TIMESTAMP_MIN` / `TIMESTAMP_MAX`), which
+    stand for "no limit" in a requested range and for "no date" in an enclosing range: an end point shared there is no
+    coincidence of two dates (a query without time-range selects contacts and undated objects through the shortcut) -/
+def prefilter (simple : Bool) (fs fe : Int) (h : Range) (tmin tmax : Int) : Option Bool :=
   if h.s > fe || h.e < fs then none
-  else some (simple && !(h.s == fe || h.e == fs || h.s == fs || h.e == fe) && (fs ≤ h.s || h.e ≤ fe))
+  else some (simple && !(h.s == fe || h.e == fs || (h.s == fs && decide (fs > tmin)) || (h.e == fe && decide (fe < tmax)))
+             && (decide (fs ≤ tmin ∧ fe ≥ tmax) || !decide (h.s ≤ tmin ∧ h.e ≥ tmax))     -- fix F38: undated item, limited request
+             && (fs ≤ h.s || h.e ≤ fe))
+
+/-- `get_filtered` between fixes F37 and F38 (an undated item was reported as matched for a request open at one end) -/
+def prefilterF37 (simple : Bool) (fs fe : Int) (h : Range) (tmin tmax : Int) : Option Bool :=
+  if h.s > fe || h.e < fs then none
+  else some (simple && !(h.s == fe || h.e == fs || (h.s == fs && decide (fs > tmin)) || (h.e == fe && decide (fe < tmax)))
+             && (fs ≤ h.s || h.e ≤ fe))
 
 /-- `get_filtered` between fixes F27 and F37: only ranges touching from outside were handed to full evaluation -/
 def prefilterF27 (simple : Bool) (fs fe : Int) (h : Range) : Option Bool :=
@@ -113,10 +123,10 @@ def prefilterStrict (simple : Bool) (fs fe : Int) (h : Range) : Option Bool :=
   if h.s ≥ fe || h.e ≤ fs then none else some (simple && (fs ≤ h.s || h.e ≤ fe))
 
 /-- the report: shortcut on (when the storage claims a full match the filter is not evaluated) vs off -/
-def reportWithShortcut (simple : Bool) (fs fe : Int) (rs : List Range) : Bool :=
-  match hull rs with
-  | none => false
-  | some h => match prefilter simple fs fe h with
+def reportWithShortcut (simple : Bool) (fs fe : Int) (rs : List Range) (tmin tmax : Int) : Bool :=
+  -- `find_time_range`: an object for which nothing is visited (a VJOURNAL without DTSTART) gets the whole time line
+  let h := (hull rs).getD ⟨tmin, tmax⟩
+  match prefilter simple fs fe h tmin tmax with
     | none => false
     | some true => true
     | some false => rs.any (overlaps fs fe)
@@ -124,8 +134,8 @@ def reportWithShortcut (simple : Bool) (fs fe : Int) (rs : List Range) : Bool :=
 /-- the report for a series without end (`infinity_fn` of `find_time_range`): the enclosing range kept in the cache
     starts at the first occurrence's *date* `occ0` — not at the start of the first visited range, which for a to-do can
     lie one second earlier — and ends at the largest time stamp -/
-def reportUnbounded (simple : Bool) (tmax : Int) (fs fe : Int) (occ0 : Int) (rs : List Range) : Bool :=
-  match prefilter simple fs fe ⟨occ0, tmax⟩ with
+def reportUnbounded (simple : Bool) (tmax : Int) (fs fe : Int) (occ0 : Int) (rs : List Range) (tmin : Int) : Bool :=
+  match prefilter simple fs fe ⟨occ0, tmax⟩ tmin tmax with
   | none => false
   | some true => true
   | some false => rs.any (overlaps fs fe)
